@@ -49,62 +49,64 @@ theorem mem_insertKw {kw : Kwargs} {k : String} {v : Val} {a : String} {b : Val}
 
 /-- every consumer reads the single stored result: the keyword arguments of a node other than the input node
 are the stored results of its sources (for a switch: of the selected case), plus `additional_data` -/
+theorem kwPut_ok {kw kw1 : Kwargs} {k : String} {v : Val} (h : kwPut kw k v = .ok kw1) : kw1 = insertKw kw k v := by
+  unfold kwPut at h
+  split at h
+  · cases h
+  · cases h; rfl
+
+theorem kwStep_values (P : Program) (s : St) (acc : KwRes) (e : Edge)
+    (hacc : ∀ kw0, acc = .ok kw0 → ∀ a b, (a, b) ∈ kw0 → ∃ src, b = s.getHid src) :
+    ∀ kw1, kwStep P s acc e = .ok kw1 → ∀ a b, (a, b) ∈ kw1 → ∃ src, b = s.getHid src := by
+  intro kw1 h1 a b hab
+  unfold kwStep at h1
+  cases acc with
+  | err x => simp at h1
+  | ok kwa =>
+    cases hek : e.kwarg with
+    | none => simp [hek] at h1; subst h1; exact hacc _ rfl a b hab
+    | some kk =>
+      simp only [hek] at h1
+      split at h1
+      · split at h1
+        · next l c hsw =>
+          have := kwPut_ok h1; subst this
+          rcases mem_insertKw hab with h2 | h2
+          · exact ⟨c, by cases h2; rfl⟩
+          · exact hacc _ rfl a b h2
+        · simp at h1
+      · have := kwPut_ok h1; subst this
+        rcases mem_insertKw hab with h2 | h2
+        · exact ⟨e.u, by cases h2; rfl⟩
+        · exact hacc _ rfl a b h2
+
 theorem C04_consumers_read_stored_result (P : Program) (s : St) (n : Node) (kw : Kwargs)
     (h : nodeKwargs P s n = .ok kw) (hn : (n == P.g.input) = false) (k : String) (v : Val) (hk : (k, v) ∈ kw) :
     k = "additional_data" ∨ ∃ src, v = s.getHid src := by
-  unfold nodeKwargs at h
-  simp only [hn, Bool.false_eq_true, if_false] at h
-  -- the fold over the incoming edges only ever inserts stored results
   have key : ∀ (es : List Edge) (acc : KwRes),
       (∀ kw0, acc = .ok kw0 → ∀ a b, (a, b) ∈ kw0 → ∃ src, b = s.getHid src) →
-      ∀ kw1, es.foldl (fun acc e =>
-        match acc, e.kwarg with
-        | .err x, _ => .err x
-        | .ok kw, none => .ok kw
-        | .ok kw, some k =>
-          if P.g.isSwitch e.u then
-            match s.sw e.u with
-            | some (_, c) => .ok (insertKw kw k (s.getHid c))
-            | none => .err ⟨"Other:AttributeError", 0, 0, 0⟩
-          else .ok (insertKw kw k (s.getHid e.u))) acc = .ok kw1 →
-      ∀ a b, (a, b) ∈ kw1 → ∃ src, b = s.getHid src := by
+      ∀ kw1, es.foldl (kwStep P s) acc = .ok kw1 → ∀ a b, (a, b) ∈ kw1 → ∃ src, b = s.getHid src := by
     intro es
     induction es with
     | nil => intro acc hacc kw1 h1; simp only [List.foldl] at h1; exact hacc kw1 h1
     | cons e es ih =>
       intro acc hacc kw1 h1
       simp only [List.foldl] at h1
-      refine ih _ ?_ kw1 h1
-      intro kw0 h0 a b hab
-      cases acc with
-      | err x => simp at h0
-      | ok kwa =>
-        cases hek : e.kwarg with
-        | none => simp [hek] at h0; subst h0; exact hacc _ rfl a b hab
-        | some kk =>
-          simp only [hek] at h0
-          split at h0
-          · split at h0
-            · next l c hsw =>
-              simp at h0; subst h0
-              rcases mem_insertKw hab with h2 | h2
-              · exact ⟨c, by cases h2; rfl⟩
-              · exact hacc _ rfl a b h2
-            · simp at h0
-          · simp at h0; subst h0
-            rcases mem_insertKw hab with h2 | h2
-            · exact ⟨e.u, by cases h2; rfl⟩
-            · exact hacc _ rfl a b h2
+      exact ih _ (kwStep_values P s acc e hacc) kw1 h1
+  have hbase : ∀ kw0, kwBase P s n = .ok kw0 → ∀ a b, (a, b) ∈ kw0 → ∃ src, b = s.getHid src := by
+    intro kw0 h0
+    simp only [kwBase, hn, Bool.false_eq_true, if_false] at h0
+    exact key _ _ (by intro kw0 h0; simp at h0; subst h0; intro a b hab; simp at hab) kw0 h0
+  unfold nodeKwargs at h
   split at h
   · next kw0 v0 hb ha =>
     split at h
-    · simp at h; subst h
-      exact Or.inr (key _ _ (by intro kw0 h0; simp at h0; subst h0; intro a b hab; simp at hab) kw0 hb k v hk)
+    · simp at h; subst h; exact Or.inr (hbase kw0 hb k v hk)
     · simp at h; subst h
       rcases mem_insertKw hk with h2 | h2
       · left; cases h2; rfl
-      · exact Or.inr (key _ _ (by intro kw0 h0; simp at h0; subst h0; intro a b hab; simp at hab) kw0 hb k v h2)
-  · exact Or.inr (key _ _ (by intro kw0 h0; simp at h0; subst h0; intro a b hab; simp at hab) kw h k v hk)
+      · exact Or.inr (hbase kw0 hb k v h2)
+  · exact Or.inr (hbase kw h k v hk)
 
 /-! Non-vacuity: the initial state is reachable and satisfies the invariant with equality possible after
 one execution (see the lock-step corpus for reachable states with `invCount = hideCount + 1`). -/
